@@ -7,6 +7,9 @@ python3 - <<'PY'
 t=open('/verif/DESIGN.tmpl.md').read()
 t=t.replace('@@DESCRIBE@@', open('/tmp/d2verif-describe.md').read())
 t=t.replace('@@MATRIX@@', open('/tmp/d2verif-matrix.md').read())
+import glob,json
+ms=[json.load(open(f)) for f in glob.glob('/verif/fixtures/mutants/C*.json')]
+t=t.replace('@@NMUT@@', str(sum(len(m) for m in ms))).replace('@@NMUTP@@', str(len(ms)))
 open('/verif/DESIGN.md','w').write(t)
 PY
 rm -f /tmp/d2verif-describe.md /tmp/d2verif-matrix.md
